@@ -280,6 +280,20 @@ class Interp:
     def call_closure(self, clo, g, args):
         if isinstance(clo, NativeFn):
             return clo.fn(self, g, args)
+        if isinstance(clo, tuple) and len(clo) == 2 and clo[0] == "fnref":
+            name = clo[1]
+            if "::" in name:
+                ty, fn = name.split("::", 1)
+                if (ty, fn) in self.p.methods:
+                    item = self.p.methods[(ty, fn)]
+                    if item["sig"]["inputs"] and item["sig"]["inputs"][0]["k"] == "SelfArg":
+                        return self.call_fn(item, g, args[1:], self_val=args[0])
+                    return self.call_fn(item, g, args)
+                if name in self.natives:
+                    return self.natives[name](self, g, args)
+            elif name in self.p.fns:
+                return self.call_fn(self.p.fns[name], g, args)
+            raise Unsupported("call through function path " + name)
         if not isinstance(clo, ClosureV):
             raise Unsupported("call of non-closure %r" % (clo,))
         scope = Scope(clo.scope)
@@ -303,6 +317,14 @@ class Interp:
             for nm in pat_names_all(p):
                 scope.vars[nm] = UNDEF
             return F
+        if k == "Ident" and p["name"] == "None":
+            # syn cannot tell a binding from a unit variant: `None` in pattern position is Option::None
+            v = self.deref(v)
+            if not isinstance(v, OptV):
+                raise Unsupported("None pattern against %r" % (v,))
+            return -v.some
+        if k == "Ident" and p["name"][:1].isupper() and isinstance(self.deref(v), EnumV) and p["name"] in self.deref(v).alts:
+            return self.deref(v).alts[p["name"]][0]
         if k == "Ident":
             if p["sub"] is not None:
                 raise Unsupported("@ pattern")
@@ -421,6 +443,9 @@ class Interp:
                 v = self.eval(s["expr"], scope, frame, eg)
                 r = v if (not s["semi"] and i == n - 1) else UNIT
             elif k == "Item":
+                it = s["item"]
+                if it["k"] in ("Static", "Const"):
+                    scope.vars[it["name"]] = self.eval(it["expr"], scope, frame, eg, it["ty"])
                 r = UNIT
             else:
                 raise Unsupported("statement " + k)
@@ -964,8 +989,8 @@ class Interp:
             args = self.eval_args(item, e["args"], scope, frame, g)
             return self.call_fn(item, g, args)
         if name in self.p.structs:
-            # tuple struct constructor (non-newtype): tuple
-            return tuple(self.eval(a, scope, frame, g) for a in e["args"])
+            # tuple struct constructor (non-newtype): a struct with fields 0, 1, ..
+            return StructV(name, {i: self.eval(a, scope, frame, g) for i, a in enumerate(e["args"])})
         raise Unsupported("call of unknown function " + name)
 
     def eval_args(self, item, argexprs, scope, frame, g):
@@ -998,6 +1023,10 @@ class Interp:
             if name == "empty":
                 s.frozen = True
             return s
+        if tyname == "WBTreeMap" and name == "new":
+            return MapV(mkdefault=None)
+        if tyname == "WBTreeSet" and name == "new":
+            return V.KeySet()
         if tyname in ("Vec", "VecDeque", "BTreeMap") and name == "new":
             if hint is None:
                 raise Unsupported("%s::new() without a type annotation" % tyname)
@@ -1087,7 +1116,7 @@ class _ObjPlace:
         v = v if not isinstance(v, RefV) else v.place.get()
         if getattr(o, "frozen", False):
             raise Unsupported("assignment through a reference to a snapshot object")
-        m = merge(g, v, o)
+        m = V.unfreeze(merge(g, V.clone(v) if g != T else v, o))
         if isinstance(o, SetV):
             o.cells = dict(m.cells)
         elif isinstance(o, VecL):
